@@ -244,7 +244,7 @@ def check(pid, tier, seed):
                 env["VERIF_N"] = str(n)
                 env["GOMEMLIMIT"] = u.get("memlimit", "3GiB")
                 if race:
-                    env["GORACE"] = "halt_on_error=1 exitcode=66 log_path=%s" % os.path.join(run.dir, "logs", name + ".race")
+                    env["GORACE"] = "halt_on_error=1 exitcode=66 atexit_sleep_ms=0"
                 wd = os.path.join(run.dir, "wd", name)
                 os.makedirs(wd)
                 cmd = [binp, "-test.run", "^%s$" % u["test"], "-test.timeout", "0", "-test.count", "1"]
@@ -294,7 +294,8 @@ def check(pid, tier, seed):
                     pend = f.read()
                 try:
                     obj = json.loads(pend)
-                    obj["message"] = "process died during this case (exit %s): %s" % (j.rc, out[-1500:])
+                    at = max(out.find("WARNING: DATA RACE"), out.find("fatal error:"))
+                    obj["message"] = "process died during this case (exit %s): %s" % (j.rc, out[at:at + 4000] if at >= 0 else out[-1500:])
                     with open(j.failpath, "w") as f:
                         json.dump(obj, f, indent=1)
                     violations.append(save_replay(pid, j.failpath))
@@ -387,6 +388,8 @@ def replay_files(run, spec, bins, files):
         env = goenv()
         env["VERIF_REPLAY"] = ":".join(fs)
         env["VERIF_RUNDIR"] = run.dir
+        if race:
+            env["GORACE"] = "halt_on_error=1 exitcode=66 atexit_sleep_ms=0"
         for h in spec.get("helpers", []):
             if h in ("cli-v5", "cli-legacy"):
                 env["VERIF_CLI_" + h[4:].upper()] = run.build_cli(h[4:])
